@@ -254,8 +254,15 @@ def run(ctx, rep, tier):
         stm = [ast.unparse(s) for s in loop.body]
         want = ["transition.to(self.end_state)", "transition.actions.remove(self.break_action)", "transition.actions.extend(self.after_break_actions)", "should_try_to_append = True"]
         rep.check(stm == want, "C01.f", "LoopNode.convert", "reroute to end_state; drop the break; append (not prepend) the after-break actions", f"break rerouting is {stm}")
-    bt = ast.unparse(model.func("BreakAction.get_target_override_targets").body[-1])
-    rep.check(bt == "return [self.refers_to.end_state]", "C01.f", "BreakAction.get_target_override_targets", "declares the loop's end state", f"declared targets `{bt}`")
+    bret = model.func("BreakAction.get_target_override_targets").body[-1]
+    bt = ast.unparse(bret)
+    bv = bret.value if isinstance(bret, ast.Return) else None
+    # first the loop's end state (simulate() follows element 0); after it, at most the override targets of the actions run on the way out (F-76)
+    rest_ok = isinstance(bv, ast.List) and bv.elts and ast.unparse(bv.elts[0]) == "self.refers_to.end_state" and all(
+        isinstance(e, ast.Starred) and isinstance(e.value, ast.GeneratorExp) and len(e.value.generators) >= 1
+        and ast.unparse(e.value.generators[0].iter) in ("self.embeds()", "self.refers_to.after_break_actions", "self.replacement_actions()")
+        and "get_target_override_targets()" in ast.unparse(e.value) for e in bv.elts[1:])
+    rep.check(bool(rest_ok), "C01.f", "BreakAction.get_target_override_targets", "declares the loop's end state first (then only targets of the after-break actions)", f"declared targets `{bt}`")
     fp = E.enumerate("CodegenCtx._generate_action_implementation", classes={"action": "BreakAction"})
     for p in fp.paths:
         if p.end and p.end[0] == "raise":
